@@ -126,6 +126,7 @@ type c13hSrv struct {
 	client                                     *http.Client
 	fatal                                      atomic.Value // string: main() called log.Fatal
 	mainDone                                   chan struct{}
+	startMode                                  string
 
 	mayEmpty     atomic.Bool  // a file without usable generations was offered and no good reload was seen since
 	refusedEmpty atomic.Int64 // registrations refused (HTTP 500) while mayEmpty
@@ -273,7 +274,18 @@ enforce_subnet_overrides = false
 		s.fatal.Store("main() called log.Fatal; log: " + s.logs.tail(600))
 		runtime.Goexit()
 	}
-	os.Args = []string{"regserver", "-config", s.confPath, "-api-only"}
+	// The configuration path reaches main() through the flag or through the environment, alternating
+	// by seed and shard (both are supported ways to start the registrar; SIGHUP must work in both).
+	shard, _ := vh.Shard()
+	if (int(vh.Seed())+shard)%2 == 1 {
+		s.startMode = "config-via-environment"
+		os.Setenv("CJ_REGISTRAR_CONFIG", s.confPath)
+		os.Args = []string{"regserver", "-api-only"}
+	} else {
+		s.startMode = "config-via-flag"
+		os.Unsetenv("CJ_REGISTRAR_CONFIG")
+		os.Args = []string{"regserver", "-config", s.confPath, "-api-only"}
+	}
 	go func() {
 		defer close(s.mainDone)
 		main()
@@ -617,7 +629,7 @@ func TestVerif_C13_sighup(t *testing.T) {
 		}
 		hist = c.Steps
 	} else {
-		rec.Require("valid-after-failed", "valid-after-valid", "failed:badsubnets", "failed:nosubnets", "failed:badconf", "failed:nocc", "failed:badcc", "empty-file-offered", "refused-by-empty-set", "rollout", "concurrent-requests")
+		rec.Require("valid-after-failed", "valid-after-valid", "failed:badsubnets", "failed:nosubnets", "failed:badconf", "failed:nocc", "failed:badcc", "empty-file-offered", "refused-by-empty-set", "rollout", "concurrent-requests", "config-via-environment", "config-via-flag")
 		shard, _ := vh.Shard()
 		for _, x := range c13hDeBruijn(len(c13hKinds), vh.Pick(3, 4)) {
 			hist = append(hist, c13hKinds[x])
@@ -633,6 +645,7 @@ func TestVerif_C13_sighup(t *testing.T) {
 	}
 
 	s := c13hStart(t)
+	rec.Class(s.startMode)
 
 	// request loops for the whole history
 	var (
